@@ -77,7 +77,10 @@ CHECKS: dict[str, dict] = {
                  "MqttTransport._on_message", "ramses_tx.packet.Packet.from_file/from_port/from_dict", "ramses_tx.message.Message",
                  "ramses_tx.protocol.PortProtocol/ReadProtocol", "all parsers"],
         "stub": STUB_RF + ["simrf.rf.FakeMqttClient (no paho thread)", "in-memory TextIOWrapper for packet logs"],
-        "assumptions": ["packet-log files are offered as ASCII text (the TextIOWrapper's codec belongs to the caller)",
+        "assumptions": ["serial: in 12 % of the passes the dongle is silent during the start-up signature poll and its echo arrives later, in "
+                        "the same read as the stream", "decode runs (also part of this check): the lines are replayed through a whole Gateway; an "
+                        "exception escaping the receive chain (pkt_received -> the gateway's message handler) is judged, what devices' handlers "
+                        "raise later is not", "packet-log files are offered as ASCII text (the TextIOWrapper's codec belongs to the caller)",
                         "MQTT messages are well-formed JSON objects with ts/msg, or truncated JSON"],
     },
     "C05": {
@@ -92,6 +95,8 @@ CHECKS: dict[str, dict] = {
         "real": ["ramses_tx.message.Message", "ramses_tx.parsers.*", "ramses_tx.frame/_pkt_idx/_has_array", "PortTransport+PortProtocol (pass 3)"],
         "stub": STUB_RF,
         "assumptions": ["pure clauses (element-wise arrays, index consistency, ranges) are monitored on generated traffic, not enumerated",
+                        "pass 4: the lines replayed through a whole Gateway 0.4 s apart (array lines twice, so that split-array pairs occur): the "
+                        "payload a handler was given must read the same afterwards", "generated arrays contain null elements (000A) and 7FFF setpoints",
                         "arrays are judged only when sent by the device kind that really sends them (01: / 02: / 23:)"],
     },
     "C02": {
@@ -105,6 +110,8 @@ CHECKS: dict[str, dict] = {
         "real": ["ramses_tx.logger (_Logger, formatters, rotating handlers)", "ramses_tx.packet.Packet", "PortTransport", "FileTransport", "ramses_tx.command.Command"],
         "stub": STUB_RF + ["scratch directory under $TMPDIR per run (removed at the end of the run)"],
         "assumptions": ["the parse/print half of C02 is a pure function: monitored on generated traffic only, not claimed as enumerated",
+                        "also monitored: repr(pkt) as the saved-state line ('<26-char timestamp> <frame>', every 7th entry on a whole second) "
+                        "reads back as an equal packet; a structurally valid frame whose code has no schema still parses and prints",
                         "live timestamps are ms-truncated by the library; agreement is judged to 2 ms"],
     },
     "C11": {
@@ -115,8 +122,10 @@ CHECKS: dict[str, dict] = {
                 "announcements received meanwhile) over 1-20 virtual minutes with the real constants; oracle over every "
                 "window [t_i, t_j] of the serial.write()/publish history: bits <= 384 b/s x L + 23040 + pending frames; "
                 "writes <= L/0.05 + 2; MQTT publishes <= 80/60 s x L + 160, calls return within 1 s (dropped, not queued); "
-                "each accepted frame written once, unaltered, in call order. distinct = distinct arrival-pattern strings; "
-                "non-trivial = >= 3 writes",
+                "each accepted frame written once, unaltered, in call order. Also: loop stalls while writes are queued (the write "
+                "spacing must hold; the duty-cycle bound is judged in the runs without stalls), callers passing disable_tx_limits=True on "
+                "the serial port, the MQTT gateway's status topic bouncing offline/online, an orderly restart of the transport on the same "
+                "port (the regulation carries over). distinct = distinct arrival-pattern strings; non-trivial = >= 3 writes",
         "real": ["ramses_tx.transport.limit_duty_cycle / avoid_system_syncs / track_system_syncs", "PortTransport._leak_sem + "
                  "BoundedSemaphore", "_FullTransport.write_frame", "MqttTransport.write_frame token bucket"],
         "stub": STUB_RF + ["simrf.rf.FakeMqttClient"],
@@ -131,8 +140,9 @@ CHECKS: dict[str, dict] = {
                 "Gateway, then 30-160 real corpus frames re-addressed over a pool of listed/unlisted/blocked ids of the same "
                 "device types (plus 63:262142, --:------, 18:000730), some before the signature handshake, and 3-15 "
                 "send_cmd calls with src/dst from every class; oracle = independent reference allowed(src) and allowed(dst) "
-                "vs what reached the application handler / serial.write, and gwy.device_by_id. distinct = distinct "
-                "(mode, gateway class, wanted/unwanted sequence); non-trivial = a filter is actually in force",
+                "vs what reached the application handler / serial.write, and gwy.device_by_id; the dongle's start-up echo takes 10 ms .. "
+                "1.5 s (the signature poll repeats every 50 ms). distinct = distinct (mode, gateway class, wanted/unwanted sequence); "
+                "non-trivial = a filter is actually in force",
         "real": ["ramses_rf.Gateway (+ Engine)", "ramses_tx.protocol._DeviceIdFilterMixin._is_wanted_addrs/_set_active_hgi",
                  "ramses_tx.schemas.select_device_filter_mode", "ramses_rf.dispatcher", "Gateway.get_device.check_filter_lists",
                  "PortTransport"],
@@ -151,7 +161,10 @@ CHECKS: dict[str, dict] = {
                 "discovery on and no schema, for up to 49 virtual hours; 0005/000C replies are dropped with a drawn "
                 "probability during the first 2-60 minutes. Oracle every 10 virtual minutes: every fact in gwy.schema is in "
                 "the truth (sound), no learned fact disappears (monotone), and by fault window + 24.5 h the schema equals "
-                "the truth (fault-free: 20 min). distinct = distinct configurations; non-trivial = non-empty configuration",
+                "the truth (fault-free: 20 min). In 35 % of the runs the devices' own traffic (TRV demand / setpoint / window state with "
+                "their zone index, sensors, relays) and a neighbour's system using the same zone indexes are on the air; the application "
+                "takes snapshots (get_state) and restores them on a slow host while discovery runs. distinct = distinct configurations; "
+                "non-trivial = non-empty configuration",
         "real": ["ramses_rf.Gateway with discovery", "entity_base._Discovery pollers", "system/heat.py, zones.py _handle_msg + schema",
                  "dispatcher", "QoS send path + PortTransport", "parsers 0005/000C/..."],
         "stub": STUB_RF + ["simrf.peers.SimController (written from the frame examples, independent of the library's builders)"],
@@ -167,8 +180,9 @@ CHECKS: dict[str, dict] = {
                 "full_sched_to_fragz/fragz_to_full_sched identity, fragment <= 41 bytes, W|0404 payload <= 48 bytes and "
                 "decodes to the same fragment; simulated clause: RP|0404 fragments of one or two versions of a zone's "
                 "schedule overheard in a seeded order with repeats -> zone.schedule is None or exactly one version; plus a "
-                "set_schedule -> fresh gateway -> get_schedule round trip against the scripted controller. distinct = "
-                "distinct (zones, fragment orders); non-trivial = every run",
+                "set_schedule -> fresh gateway -> get_schedule round trip against the scripted controller for a drawn zone or the DHW "
+                "(what was written must be what the controller holds, for that zone only). Zones 00-0B incl. 0A/0B, up to 48 switchpoints a "
+                "day (10-20 fragments). distinct = distinct (zones, fragment orders); non-trivial = every run",
         "real": ["ramses_rf.system.schedule (Schedule, codecs)", "Command.set/get_schedule_fragment", "parser_0404", "Gateway + zones", "QoS send path"],
         "stub": STUB_RF + ["simrf.peers.SimController (own zlib/struct codec written from the wire layout)"],
         "assumptions": ["the encode/decode identity over all schedules is a pure clause: generated, not enumerated"],
@@ -182,7 +196,9 @@ CHECKS: dict[str, dict] = {
                 "between exchanges, overheard current/old fragments, overall timeouts 0.3-400 s, caller cancellation and "
                 "stalls; oracle: each transfer ends within its timeout with a version the controller held during the "
                 "transfer (or an error), never a stitched one; afterwards zone_lock_idx is None and a fault-free forced "
-                "get for every zone returns the current schedule in seconds. non-trivial = a fault fired",
+                "get for every zone returns the current schedule in seconds; a write that reports success was taken by the controller. "
+                "Further faults: requests / writes echoed by the dongle but not heard by the controller, a caller cancelled at the instant "
+                "the per-system lock is handed over. non-trivial = a fault fired",
         "real": ["Schedule.get_schedule/_get_schedule/set_schedule/_is_dated/_handle_msg", "ScheduleSync._obtain_lock/_release_lock/"
                  "_schedule_version", "QoS send path + PortTransport", "zones, dispatcher"],
         "stub": STUB_RF + ["simrf.peers.SimController"],
@@ -198,7 +214,8 @@ CHECKS: dict[str, dict] = {
                 "step: the view and latest_event/latest_fault/active_faults/status never raise, timestamps strictly "
                 "decrease with position, no timestamp twice, every entry was reported by the controller, a read-through of "
                 "[0,n) with an unchanged log equals the log there, a delivered announcement pushes known entries down by one "
-                "(judged only if no other 0418 reply arrived meanwhile). distinct = distinct step-class sequences",
+                "(judged only if no other 0418 reply arrived meanwhile); in some histories the host's wall clock is stepped back between "
+                "steps. distinct = distinct step-class sequences",
         "real": ["ramses_rf.system.faultlog.FaultLog", "system/heat.py Logbook", "parser_0418 / parse_fault_log_entry", "QoS send path incl. "
                  "the null-entry reply special case", "dispatcher"],
         "stub": STUB_RF + ["simrf.peers.SimController (fault log, packed timestamps)"],
@@ -235,7 +252,8 @@ CHECKS["C13"] = {
                     "design; an experimental SIMRF_TWIN_EAVES=1 run shows the known limitation that a neighbour's packet between the two "
                     "fragments of our 000A array splits it)",
                     "exceptions that only reach the loop's handler from deferred per-device handlers are counted, not judged (the clean "
-                    "corpus already produces some)", "histories are sampled, not enumerated",
+                    "corpus already produces some)", "histories are sampled, not enumerated", "some histories carry frames with a code the library has no schema for (a neighbour's kit of "
+                    "another make), delivered in the same read as the next frame",
                     "a forward step of the wall clock (host suspend) is used for long ageing; backward steps are not injected"],
 }
 CHECKS["C15"] = {
@@ -268,8 +286,9 @@ CHECKS["C16"] = {
             "restore takes 0.3-4 s); S2 = its snapshot; then S1 is restored again into the fresh gateway (S3) and "
             "into the original one (S4). Oracle: S2/S3/S4 add nothing, change nothing and lose nothing except packets that have expired by "
             "then; with eavesdropping off and no downtime the schemas are identical; every entry of every snapshot decodes, none is an RQ, "
-            "none a W other than 0404, none expired unless asked for. distinct = (base log, splice, config, crash points); non-trivial = "
-            "mutated history",
+            "none a W other than 0404, none expired unless asked for. 15 % of the restarts run with an enforced known_list (all devices of the "
+            "history + a class-less spare 18: entry). The schema clause is not judged when the history's topology packets (000C / 0005 / zone "
+            "indexes) were edited. distinct = (base log, splice, config, crash points); non-trivial = mutated history",
     "real": REAL_STATE, "stub": STUB_RF,
     "assumptions": ["the fresh gateway's own 7FFF signature echo is live traffic after the restart and is left out on both sides",
                     "whether a packet 'has expired by then' is the library's own Message._expired (its thresholds are C14's subject)",
@@ -292,6 +311,8 @@ CHECKS["C14"] = {
             "_expired False before L, True from 2L+5 s, never True->False. distinct = distinct step-kind sequences; non-trivial = faults on",
     "real": REAL_STATE, "stub": STUB_RF + ["frame generators in simrf.engines.state_fresh (written from the parsers' frame examples)"],
     "assumptions": ["between L and 2L + 5 s either answer is accepted (the statement leaves it open); grace is taken as 5 s (the code uses 3 s)",
+                    "rx/mqtt runs (part of this check): the host's TZ is varied (UTC, JST-9, EST5, IST-5:30) and a zone-aware timestamp equal to "
+                    "the host's 'now' must be dated now (a message must not be born hours old or in the future)",
                     "when the newest message has expired, the value of an older, still-live message for the same attribute is accepted too",
                     "values are compared on the keys the frame layout documents (temperature, setpoint, mode, max_temp, window_open, ...)"],
 }
